@@ -9,7 +9,8 @@ Definition tab_fun (t : otab) (s : str) : option str :=
 Inductive case :=
 | CRemote (utf8 : bool) (toascii : otab) (txns : list txn) (obs : list (list bool * list (str * bool)))
 | CLmtp (rcpts : list str) (replies : list bool) (transfer_ok : bool) (obs : list (str * bool))
-| CPipe (m : list (str * str)) (sts : list (str * bool)) (obs : list (str * bool)).
+| CPipe (m : list (str * str)) (sts : list (str * bool)) (obs : list (str * bool))
+| CPipeE (rws : list rwtab) (rcpts fails : list str) (obs : list (str * bool)).
 
 Definition st_eqb (a b : str * bool) : bool := str_eqb (fst a) (fst b) && Bool.eqb (snd a) (snd b).
 Definition res_eqb (a b : list bool * list (str * bool)) : bool :=
@@ -21,6 +22,7 @@ Definition agrees (c : case) : bool :=
       list_eqb res_eqb (run_history (tab_fun ta) {| c_utf8 := u; c_rcpts := [] |} txns) obs
   | CLmtp rcpts replies ok obs => list_eqb st_eqb (lmtp_statuses rcpts replies ok) obs
   | CPipe m sts obs => list_eqb st_eqb (translate m sts) obs
+  | CPipeE rws rcpts fails obs => list_eqb st_eqb (pipe_e2e rws rcpts fails) obs
   end.
 Definition mismatches (cs : list case) : list N := find_idx (fun c => negb (agrees c)) cs.
 
@@ -51,6 +53,14 @@ Definition monitor (c : case) : list N :=
       let want := go sts [] in
       let uniq := forallb (fun e => Nat.eqb (length (filter (fun e' => str_eqb (fst e') (fst e)) m)) 1) m in
       if same_multiset (map fst obs) want then [] else if uniq then [3] else [110]
+  | CPipeE rws rcpts fails obs =>
+      let maps := pipe_maps rws rcpts in
+      let handed := pipe_handed rws rcpts in
+      (* the maps cannot tell two results apart: an address handed on twice, or a key with two originals at one level *)
+      let ambiguous := negb (forallb (fun e => Nat.eqb (count_s e handed) 1) handed)
+                       || negb (forallb (fun m => forallb (fun e => forallb (fun e' => negb (str_eqb (fst e) (fst e')) || str_eqb (snd e) (snd e')) m) m) maps) in
+      if same_multiset (map fst obs) (pipe_want rws rcpts) then []
+      else if ambiguous then [110] else [3]
   end.
 
 Definition dedup_N (l : list N) : list N :=
@@ -71,5 +81,7 @@ Definition tag (c : case) : N :=
       + (if existsb (fun r => existsb (fun p => negb (snd p)) (snd r)) obs then 32 else 0)
   | CLmtp _ replies ok _ => 64 + (if ok then 0 else 128) + (if existsb negb replies then 256 else 0)
   | CPipe m _ _ => 512 + (match m with [] => 0 | _ => 1024 end)
+  | CPipeE rws rcpts _ _ => 2048 + (if Nat.ltb 1 (length rws) then 4096 else 0)
+                            + (if existsb (fun m => match m with [] => false | _ => true end) (pipe_maps rws rcpts) then 8192 else 0)
   end.
 Definition tags (cs : list case) : list N := map tag cs.
